@@ -54,7 +54,8 @@ type Entry struct {
 	ML  int    `json:"ml,omitempty"`  // message length
 	P   int    `json:"p,omitempty"`
 	Q   int    `json:"q,omitempty"`
-	X   string `json:"x,omitempty"` // torS: the scalar half, hex, little endian
+	X   string `json:"x,omitempty"`  // torS: the scalar half, hex, little endian
+	K2  string `json:"k2,omitempty"` // a second, independent damage applied on top (tK nK tS lS nS sL fS msg)
 }
 
 // Op is one library call with completely determined inputs.
@@ -72,7 +73,8 @@ type Op struct {
 	SL      int      `json:"sl,omitempty"`   // signature length override (same coding)
 	Pt      int      `json:"pt,omitempty"`   // X25519 point kind
 	Alias   int      `json:"alias,omitempty"`
-	Other   int      `json:"other,omitempty"` // Equal: what to compare with
+	Other   int      `json:"other,omitempty"` // Equal: what to compare with; Sign: 1 = foreign seed half
+	Sib     int      `json:"sib,omitempty"`   // pool: 1 + index of the op this one is a sibling of
 }
 
 func shapeLen(code, def int) int {
@@ -279,6 +281,46 @@ func buildEntries(opSeed uint64, o Opt, es []Entry) []triple {
 			k := new(big.Int).Mod(leToInt(hh.Sum(nil)), bcL)
 			s := new(big.Int).Mod(new(big.Int).Mul(k, a), bcL)
 			t.sig = append(append([]byte{}, R...), intToLE32(s)...)
+		case "noR":
+			// honest key, S = h*a, R an unrelated large-order point: the group
+			// equation holds only for a verifier that drops the R term
+			R := bcEncode(bcScalarMult(new(big.Int).Add(leToInt(seededBytes(31, opSeed, lbl("noR"), uint64(i))), big.NewInt(2)), bcB))
+			a, _ := bcSecret(seed)
+			hh := sha512.New()
+			hh.Write(dom2(o.Hash, signCtxFor(o, signCtx)))
+			hh.Write(R)
+			hh.Write(pub)
+			hh.Write(t.msg)
+			k := new(big.Int).Mod(leToInt(hh.Sum(nil)), bcL)
+			t.sig = append(append([]byte{}, R...), intToLE32(new(big.Int).Mod(new(big.Int).Mul(k, a), bcL))...)
+		case "noRB":
+			// key = the base point itself, S = h, R an unrelated point:
+			// [S]B - [h]A = 0 with EQUAL scalars on both sides - a verifier
+			// whose reduction ends before the R terms join accepts it
+			t.key = bcEncode(bcB)
+			R := bcEncode(bcScalarMult(new(big.Int).Add(leToInt(seededBytes(31, opSeed, lbl("noRB"), uint64(i))), big.NewInt(2)), bcB))
+			hh := sha512.New()
+			hh.Write(dom2(o.Hash, signCtxFor(o, signCtx)))
+			hh.Write(R)
+			hh.Write(t.key)
+			hh.Write(t.msg)
+			k := new(big.Int).Mod(leToInt(hh.Sum(nil)), bcL)
+			t.sig = append(append([]byte{}, R...), intToLE32(k)...)
+		case "torR":
+			// small-order key, S = 0, R an unrelated large-order point
+			t.key = append([]byte{}, smallOrderEnc[e.P%14]...)
+			R := bcEncode(bcScalarMult(new(big.Int).Add(leToInt(seededBytes(31, opSeed, lbl("torR"), uint64(i))), big.NewInt(2)), bcB))
+			t.sig = append(append([]byte{}, R...), make([]byte, 32)...)
+		case "noA":
+			// R = [S]B with an unrelated key: holds only for a verifier that drops the A term
+			sN := new(big.Int).Mod(leToInt(seededBytes(32, opSeed, lbl("noA"), uint64(i))), bcL)
+			t.sig = append(bcEncode(bcScalarMult(sN, bcB)), intToLE32(sN)...)
+		case "lK":
+			// an over-long key (the honest key plus trailing bytes) with a
+			// signature made over exactly those over-long bytes: only the key
+			// length rule rejects it
+			t.key = append(append([]byte{}, pub...), seededBytes(1+e.P%40, opSeed, lbl("lK"), uint64(i))...)
+			t.sig = bcSignAs(seed, t.key, t.msg, dom2(o.Hash, signCtxFor(o, signCtx)))
 		case "phLen":
 			// a signature that is a correct Ed25519ph signature over a
 			// "pre-hash" of the wrong length: only the length rule rejects it
@@ -296,6 +338,30 @@ func buildEntries(opSeed uint64, o Opt, es []Entry) []triple {
 			t.sig = bcSignAs(seed, t.key, t.msg, dom2(o.Hash, signCtxFor(o, signCtx)))
 		default:
 			panic("unknown entry kind " + e.K)
+		}
+		switch e.K2 {
+		case "":
+		case "tK":
+			t.key = resize(t.key, e.Q%32, opSeed)
+		case "nK":
+			t.key = nil
+		case "tS":
+			t.sig = resize(t.sig, e.Q%64, opSeed)
+		case "lS":
+			t.sig = resize(t.sig, 65+e.Q%20, opSeed)
+		case "nS":
+			t.sig = nil
+		case "sL":
+			if len(t.sig) == 64 {
+				s := new(big.Int).Add(leToInt(t.sig[32:]), bcL)
+				copy(t.sig[32:], intToLE32(s))
+			}
+		case "fS":
+			if len(t.sig) == 64 {
+				flipBit(t.sig[32:], e.Q)
+			}
+		case "msg":
+			t.msg = append(append([]byte{}, t.msg...), byte(e.Q))
 		}
 		out[i] = t
 	}
@@ -371,7 +437,13 @@ func prepare(op *Op) *Prepared {
 		if op.Alias == 9 { // deliberately wrong pre-hash length
 			ml = op.ML
 		}
-		p.priv = g.Buf(resize([]byte(stdPriv), shapeLen(op.KL, 64), op.Seed))
+		privBytes := []byte(stdPriv)
+		if op.Other == 1 {
+			// a private key whose seed half does not belong to its public
+			// half (same public half as the honest key of this op seed)
+			privBytes = append(append([]byte{}, seededBytes(32, op.Seed, lbl("foreign-seed"))...), privBytes[32:]...)
+		}
+		p.priv = g.Buf(resize(privBytes, shapeLen(op.KL, 64), op.Seed))
 		if ml < 0 {
 			p.msg = nil
 		} else {
